@@ -70,17 +70,16 @@ theorem C03_compound_first (E : Env) (ds : List Desc) (v : Val)
 the alternatives that have a fast validator in declaration order — a nested
 compound in place, as a unit —, then `None`, then the alternatives without a
 fast validator; the result is that of the first one whose own CTrait validator
-does not raise TraitError.  (Hypothesis: alternatives without a descriptor have
-a Python validate method — `Any` has none, see finding F48.) -/
+does not raise TraitError.  (An alternative with neither descriptor nor validate
+method — `Any` — accepts: F48 repaired.) -/
 theorem C03_compound_order (E : Env) (hE : CastIdem E) (alts : List TraitType) (wn : Bool)
     (d : Desc) (v : Val)
-    (hslow : ∀ t ∈ alts, descOf E t = none → hasPy t = true)
     (hd : descOf E (.either alts wn) = some d) :
     ctraitValidate E (.either alts wn) v = firstAccept (
       (fastAlts E alts).map (ctraitValidate E · v) ++
       ((if wn then [fastAlone E (.enum [Val.none]) v] else []) ++
        (slowAlts E alts).map (ctraitValidate E · v))) := by
-  have := either_first E hE alts wn d v hslow hd
+  have := either_first E hE alts wn d v hd
   simpa [ctraitValidate, ctraitValidateWith, hd] using this
 
 /-! ## Tuple is element-wise -/
